@@ -28,6 +28,11 @@ long ledger_peak_bytes = 0;
 long ledger_total_allocs = 0;
 long ledger_total_frees = 0;
 size_t ledger_max_request = 0;
+/* optional ceiling on the bytes held inside a call (VDRV_HEAPCAP): a request that would pass it is refused like any
+ * other allocation failure and is booked into the peak, so that a decoder on its way to exhausting the machine is
+ * stopped and reported by its peak instead of by the kernel */
+long ledger_cap_bytes = -1;
+long ledger_cap_hits = 0;
 
 struct ent { void *p; size_t sz; };
 static struct ent *tab = 0;
@@ -87,6 +92,21 @@ static int tab_del(void *p) {
     return 0;
 }
 
+static int over_cap(size_t sz) {
+    if(!ledger_open) return 0;
+    if(ledger_cap_bytes < 0) {
+        const char *e = getenv("VDRV_HEAPCAP");
+        ledger_cap_bytes = e ? atol(e) : 0;
+    }
+    if(ledger_cap_bytes > 0 && (sz > (size_t)ledger_cap_bytes || ledger_live_bytes + (long)sz > ledger_cap_bytes)) {
+        long want = (sz > (size_t)1 << 62) ? ledger_cap_bytes : ledger_live_bytes + (long)sz;
+        if(want > ledger_peak_bytes) ledger_peak_bytes = want;
+        ledger_cap_hits++;
+        return 1;
+    }
+    return 0;
+}
+
 static int should_fail(void *site) {
     if(!ledger_open) return 0;
     ledger_alloc_seq++;
@@ -102,6 +122,7 @@ void *__wrap_malloc(size_t sz) {
     void *p;
     if(ledger_open && sz > ledger_max_request) ledger_max_request = sz;
     if(should_fail(__builtin_return_address(0))) return 0;
+    if(over_cap(sz)) return 0;
     p = __real_malloc(sz);
     if(p && ledger_open) { tab_add(p, sz); ledger_total_allocs++; }
     return p;
@@ -111,6 +132,7 @@ void *__wrap_calloc(size_t n, size_t sz) {
     void *p;
     if(ledger_open && sz && n * sz > ledger_max_request) ledger_max_request = n * sz;
     if(should_fail(__builtin_return_address(0))) return 0;
+    if(over_cap(n * sz)) return 0;
     p = __real_calloc(n, sz);
     if(p && ledger_open) { tab_add(p, n * sz); ledger_total_allocs++; }
     return p;
@@ -121,6 +143,7 @@ void *__wrap_realloc(void *old, size_t sz) {
     int tracked;
     if(ledger_open && sz > ledger_max_request) ledger_max_request = sz;
     if(should_fail(__builtin_return_address(0))) return 0;
+    if(over_cap(sz)) return 0;
     size_t oldsz;
     tracked = old ? tab_del(old) : 0;
     oldsz = tracked ? tab_lastsz : 0;
